@@ -43,6 +43,8 @@ fn main() {
         "C08" => vcheck::checks::c08::run(tier),
         "C09" => vcheck::checks::c09::run(tier),
         "C11" => vcheck::checks::c11::run(tier),
+        "C12" => vcheck::checks::c12::run(tier),
+        "C13" => vcheck::checks::c13::run(tier),
         "C14" => vcheck::checks::c14::run(tier),
         "C16" => vcheck::checks::c16::run(tier),
         "C17" => vcheck::checks::c17::run(tier),
